@@ -28,10 +28,13 @@ def run(ctx):
     ctx.log(f"prepared at {time.time() - ctx.t0:.1f}s")
     # mechanisms this property assumes and sibling properties check (run alongside, joined before finish)
     from concurrent.futures import ThreadPoolExecutor
-    dep_pool = ThreadPoolExecutor(max_workers=2)
+    dep_pool = ThreadPoolExecutor(max_workers=2)  # two at a time
     deps = [dep_pool.submit(ctx.dependency, "C10", "every delivered event reaches the handler exactly once and in order; "
                             "the first batch is complete"),
-            dep_pool.submit(ctx.dependency, "C11", "the configuration handed to the file manager is what is on disk afterwards")]
+            dep_pool.submit(ctx.dependency, "C11", "the configuration handed to the file manager is what is on disk afterwards"),
+            dep_pool.submit(ctx.dependency, "C12", "histories with failing applies: the result the handler remembers is the truth "
+                            "about the last apply, so the statuses last issued are those of a fresh controller"),
+            dep_pool.submit(ctx.dependency, "C07", "the statuses last issued tell the truth about the configuration last applied")]
     ctx.obligations("NGF.Props.C01")
     for mod in EXTRA_PROPS:
         ctx.obligations(mod)
